@@ -60,7 +60,9 @@ pub struct Chitchat {
     cluster_state: ClusterState,
     failure_detector: FailureDetector,
     /// Notifies listeners when a change has occurred in the set of live nodes.
-    previous_live_nodes: HashMap<ChitchatId, Version>,
+    /// For each live node: its max version and whether it satisfied the extra liveness predicate
+    /// at the last evaluation.
+    previous_live_nodes: HashMap<ChitchatId, (Version, bool)>,
     live_nodes_watcher_tx: watch::Sender<BTreeMap<ChitchatId, NodeState>>,
     live_nodes_watcher_rx: watch::Receiver<BTreeMap<ChitchatId, NodeState>>,
 }
@@ -222,7 +224,16 @@ impl Chitchat {
             .live_nodes()
             .flat_map(|chitchat_id| {
                 if let Some(node_state) = self.node_state(chitchat_id) {
-                    return Some((chitchat_id.clone(), node_state.max_version()));
+                    // The outcome of the extra predicate can change without a change of the max
+                    // version (e.g. a key marked with a TTL is garbage collected).
+                    let satisfies_extra_predicate = match &self.config.extra_liveness_predicate {
+                        Some(extra_predicate) => extra_predicate(node_state),
+                        None => true,
+                    };
+                    return Some((
+                        chitchat_id.clone(),
+                        (node_state.max_version(), satisfies_extra_predicate),
+                    ));
                 }
                 warn!("node state for {chitchat_id:?} is absent");
                 None
